@@ -57,6 +57,34 @@ def main(argv):
                 mod = load_program(text, scratch, tag=f"s{si}")
                 sess = Session(mod, s["root"], text)
                 dig["strs"].append(sha(str(sess.cur)))
+                if variant.get("compile_history"):
+                    # earlier compilations in this process: the same procedure as part of another
+                    # library, and a relative of it (same argument symbols, stronger precondition)
+                    try:
+                        from exo.API import compile_procs_to_strings as _cps
+
+                        _cps([sess.cur], "earlier_lib.h")
+                        rel = None
+                        for a in sess.cur._loopir_proc.args:
+                            if type(a.type).__name__ == "Size":
+                                for k in (8, 4, 2):
+                                    try:
+                                        rel = sess.cur.add_assertion(f"{a.name} >= {k}")
+                                        break
+                                    except Exception:
+                                        pass
+                            if rel is not None:
+                                break
+                        if rel is not None:
+                            _cps([rel], "relative.h")
+                            try:
+                                from exo.stdlib.scheduling import simplify as _simp
+
+                                _simp(rel)
+                            except Exception:
+                                pass
+                    except Exception:
+                        pass
                 for sti, st in enumerate(s["steps"]):
                     if variant.get("sym_boundary"):
                         # the user defines other procedures between two scheduling calls: the symbol
